@@ -491,6 +491,16 @@ pub fn run(tier: &str, c10: bool) -> i32 {
         });
         retry_evals = a3.iter().map(|a| a.evals).sum();
     }
+    // LZ-code-buffer edge family (lazy levels)
+    if !c10 {
+        let fam = corpus::lzbuf_edge_inputs(th);
+        let lv: Vec<u8> = if th { vec![4, 5, 6, 7, 8, 9, 10] } else { vec![4, 6, 9] };
+        let a4 = par_for(fam.len(), Acc::new, |i, acc| {
+            watchdog::tick(3_000_000 + i as u64, 0);
+            c01_case(&fam[i], &lv, acc, &rep, false);
+        });
+        retry_evals += a4.iter().map(|a| a.evals).sum::<u64>();
+    }
     // 64 fixed inputs x all 256 levels (C01)
     let mut all_levels_evals = 0u64;
     if !c10 {
